@@ -182,6 +182,10 @@ class C01(Prop):
                 return f"block {j} holds {ns} samples (gulp {g})"
             if b["nr"] != ns:
                 return f"block {j} reports {b['nr']} samples but holds {ns}"
+            if j > 0 and b["vals"][:k * C] != obs["blocks"][j - 1]["vals"][len(obs["blocks"][j - 1]["vals"]) - k * C:][:k * C] \
+                    and len(obs["blocks"][j - 1]["vals"]) >= k * C:
+                return (f"block {j}: its leading {k} samples do not repeat the tail of block {j - 1} "
+                        f"(gulp {g}, start {s}, nsamps {n}, files {case['splits']})")
             got.extend(b["vals"] if j == 0 else b["vals"][k * C:])
         if got != want:
             i = next((i for i, (x, y) in enumerate(zip(got, want)) if x != y), min(len(got), len(want)))
